@@ -143,6 +143,19 @@ CHECKS['C02'] = {
     'technique': 'dimension (homogeneity) type inference over abstractly-interpreted closed forms + control-dependence guard rules + interval abstract interpretation',
 }
 
+CHECKS['C03'] = {
+    'category': 'other',
+    'text': 'The distributional statement (DKW band) is NOT decided. Decided necessary conditions: the 3x128 Ziggurat literals satisfy their defining '
+            'relations and are read at one common layer; every sqrt/ln/powf argument in the 13 sampler bodies is in range under the invariants kept by '
+            'all writers plus dominating guards (violations need a concrete witness parameter, e.g. alpha = 1/6 for the unboosted gamma sampler); the '
+            'RNG precondition follows from the field invariant; bulk helpers return exactly n draws / the requested shape; sample() of the location/'
+            'scale/rate families has scale type X; every rejection loop has an exit depending on a draw made in the loop; discrete samplers return '
+            'integer-valued floats by construction.',
+    'design_ref': 'DESIGN.md 4.3, 3 (E-TAB, E-ABS interval domain with witnesses, E-SYM, dependency, integrality domain)',
+    'note': 'Trusted: alea::f64() in [0,1); embedded standard samplers (Normal(0,1), Uniform(0,1)) are dimensionless. PTRS/BTPE constants are not decided.',
+    'technique': 'constant-table validation + interval abstract interpretation with witness generation + dependency analysis of loop exits + scale-type inference',
+}
+
 NOT_APPLICABLE = {
     'C09': 'accuracy of the Lanczos/asymptotic/Abramowitz-Stegun approximations over a continuum of arguments is a numerical '
            'quantity; no structural clause is a necessary condition without freezing coefficient tables (a brittle proxy); see DESIGN.md 4.9',
